@@ -305,7 +305,10 @@ struct Heap : mc::Model
         }
         Snap s;
         if (!snap(s))
-            mc::harness_error("C10 heap: snapshot buffer too small (break at %ld)", brk_off());
+        { // the snapshot buffer holds every break a correct allocator can reach with MAXLIVE blocks of the alphabet
+            mc::violation("C10.heap.break_beyond_every_reachable_layout", "break at %ld: larger than any layout of the live blocks allows", brk_off());
+            return false;
+        }
         Blk rest[MAXLIVE];
         for (int i = 0; i < n; i++)
         {
@@ -574,7 +577,7 @@ struct LongRun
             if (__brkval && (size_t)(__brkval - A) > hw)
                 hw = __brkval - A;
             if (hw + 4096 > ARENA)
-                mc::harness_error("C10 heap long: arena too small");
+                return fail(phase, "memory_lost", mc::fmt("allocation #%d: the break has climbed to %zu of %zu arena bytes - freed memory is not reused", i + 1, (size_t)hw, (size_t)ARENA));
             if (!q)
                 return fail(phase, "null", mc::fmt("allocation #%d of %zu bytes returned NULL", i + 1, s));
             if (q < A + sizeof(size_t) || !__brkval || q + s > __brkval)
@@ -667,7 +670,10 @@ static void heap_long_history_case()
         if (__brkval && (size_t)(__brkval - A) > r.hw)
             r.hw = __brkval - A;
         if (r.hw + 4096 > ARENA)
-            mc::harness_error("C10 heap long history: arena too small");
+        { // at most 60 blocks are ever live: a break that climbs to the end of the arena means chunks are being lost
+            r.fail(ph, "memory_lost", mc::fmt("operation %ld: the break has climbed to %zu of %zu arena bytes although at most 60 small blocks are live - freed memory is not reused", i, r.hw, (size_t)ARENA));
+            return false;
+        }
         if (q < A + sizeof(size_t) || !__brkval || q + s > __brkval)
         {
             r.fail(ph, "outside_arena", mc::fmt("operation %ld: [%ld,%ld) is not inside [heap start, break)", i, (long)(q - A), (long)(q - A + s)));
